@@ -550,7 +550,7 @@ class SDMXSettings(SADMSettings):
             elif pow == 1:
                 consts.append(-0.875199972960095)
             elif pow == 2:
-                consts.append(-2.073307129927323)
+                consts.append(-2.0732992568042694)
             else:
                 raise NotImplementedError("Only have UEG for pow=0,1,2")
         return consts
@@ -603,7 +603,7 @@ class SDMXGSettings(SDMXSettings):
             elif pow == 1:
                 consts.append(-1.7176832947050569)
             elif pow == 2:
-                consts.append(-1.526151911492354)
+                consts.append(-1.5260945483736112)
             else:
                 raise NotImplementedError("Only have UEG for pow=0,1,2")
         return consts
@@ -794,22 +794,22 @@ class SDMXFullSettings(SDMXBaseSettings):
         known_ueg_vals = [
             0.5831374308696956,
             0.8751999729599736,
-            2.073307129927323,
+            2.0732992568042694,
             2.1457477040250175,
             1.7176832947040594,
-            1.526151911492354,
+            1.5260945483736112,
             0.5198776758462206,
             0.8101255945354239,
-            1.9940403510297529,
+            1.9940237904761968,
             1.6566509762225055,
             1.3731808970090098,
-            1.2642399626720755,
+            1.2641411746102535,
             0.4226571198848177,
             0.7049490157407584,
-            1.859127630633614,
+            1.8591205922191578,
             1.0360245380146442,
             0.9154428039042883,
-            0.8992798146562154,
+            0.8993014418023781,
         ]
         known_uegs = [
             (1.0, 0, False),
